@@ -30,6 +30,11 @@ Definition chk_grid (c : fa * float * float * Z * Z * Z) : bool :=
 Definition chk_grid_img (c : fa * float * float * Z) : bool :=
   let '(a, x, y, code) := c in code_of a (grid_cell F64 a x y) =? code.
 
+(* utils.generate_quick_linesample_arrays rows/cols (uint16 or int32) and ImageContainer.get_array_from_linesample *)
+Definition chk_quick (c : fa * float * float * Z * Z * Z) : bool :=
+  let '(a, x, y, r, cc, code) := c in
+  (quick_row F64 a y =? r) && (quick_col F64 a x =? cc) && (code_of a (quick_cell F64 a x y) =? code).
+
 (* GridFilter.get_valid_index decoded through one-hot bit filters *)
 Definition chk_gf (c : fa * float * float * Z) : bool :=
   let '(a, x, y, code) := c in code_of a (gf_cell F64 a x y) =? code.
